@@ -12,12 +12,14 @@ REQUIRED = ["CurveFitting.__init__", "CurveFitting.set", "CurveFitting._compute_
             "CurveFitting.quadratic_fitting", "CurveFitting.general_fitting"]
 THEOREMS = ["C17_sums", "C17_linear_normal_equations", "C17_quadratic_normal_equations",
             "C17_general_normal_equations", "C17_general_eq_quadratic", "C17_general_eq_linear",
-            "C17_degenerate_refused", "C17_correlation", "C17_input_forms"]
+            "C17_degenerate_refused", "C17_correlation", "C17_input_forms",
+            "C17_correlation_collinear", "C17_correlation_rescaling", "C17_permutation_invariance",
+            "C17_general_permutation_invariance", "C17_noiseless_recovered"]
 PROOF_TIMEOUT = {"quick": 1500, "thorough": 3000}
 EXHAUSTIVE = False
 MANIFEST = {
     "category": "proof",
-    "text": "Ideal (real-arithmetic) instance of the regenerated model, data lists of ANY length (induction over the generated loops): the stored sums are the power sums; whenever the generated guards let a result through, linear/quadratic/general_fitting satisfy the 2x2/3x3 normal equations (residuals orthogonal to every basis function, arbitrary basis functions), general(x^2,x,1) = quadratic and general(x,1,0) = linear, exactly degenerate data give ZeroDivisionError, correlation formula, |r| <= 1 (Cauchy-Schwarz), sign flip; bit-exact correspondence incl. basis-function values; exact rational (Fraction) reference search on the implementation.",
+    "text": "Ideal (real-arithmetic) instance of the regenerated model, data lists of ANY length (induction over the generated loops): the stored sums are the power sums; whenever the generated guards let a result through, linear/quadratic/general_fitting satisfy the 2x2/3x3 normal equations (residuals orthogonal to every basis function, arbitrary basis functions), general(x^2,x,1) = quadratic and general(x,1,0) = linear, exactly degenerate data give ZeroDivisionError, correlation formula, |r| <= 1 (Cauchy-Schwarz), r = +-1 on collinear data, affine invariance, sign flips, permutation invariance of all fits, noiseless data recovered exactly; bit-exact correspondence incl. basis-function values; exact rational (Fraction) reference search on the implementation.",
     "technique": "generated model + symbolic evaluation (pyrun) + induction over lists + field/nra in the ideal instance + bit-exact differential correspondence + exact rational oracle",
     "design_ref": "8/C17",
 }
@@ -35,15 +37,16 @@ CLAUSES = {
     "exactly degenerate data (all x equal) => ZeroDivisionError from linear/quadratic fit and correlation": "proved [ideal]; binary64 on inexact sums: known finding degenerate-inexact-not-refused (absolute TOL guard vs rounding); exact-sum degenerate data searched strictly (key degenerate-not-refused)",
     "correlation coefficient = cov/(sqrt varx * sqrt vary), |r| <= 1, sign flip under y -> -y": "proved [ideal, any length; Cauchy-Schwarz over lists]",
     "input forms: lists (truncated to the shorter), tuples, interleaved scalars (odd one dropped), copy constructor give the same object; one pair refused": "proved [ideal, two points with symbolic entries]; searched for 2-200 points: 7 forms bit-identical",
-    "r = +-1 for collinear data; invariance under positive affine rescaling": "unproved (searched): checked on the implementation against the exact rational r (|r| <= 1 + 1e-9 accepted: binary64 rounding gives up to 1.0000000000000844 on collinear data)",
-    "relative 1e-6 agreement of the binary64 result with the exact rational solution on well-conditioned data; noiseless data recovered": "unproved (searched): rounding is outside the ideal instance; Fraction reference with a conditioning gate (first-order rounding estimate of the closed form <= 1e-7 relative)",
-    "independence of the order of the points": "unproved (searched): all permutations of sets of <= 5 points, 3 random ones of larger sets (the proved sums are symmetric, but no separate permutation theorem is stated)",
+    "r = +-1 for collinear data (y = al*x + be, al <> 0, x not all equal); r unchanged by positive affine rescaling of either variable, sign flip under a negative one / negation of x or y": "proved [ideal, any length]; binary64: searched against the exact rational r (|r| <= 1 + 1e-9 accepted: rounding gives up to 1.0000000000000844 on collinear data)",
+    "noiseless data are recovered: points exactly on a line / parabola give back its coefficients when the guard passes": "proved [ideal, any length]",
+    "relative 1e-6 agreement of the binary64 result with the exact rational solution on well-conditioned data": "unproved (searched): rounding is outside the ideal instance; Fraction reference with a conditioning gate (first-order rounding estimate of the closed form <= 1e-7 relative)",
+    "independence of the order of the points (Permutation of the point list): linear, quadratic fit, correlation; general fit with arbitrary basis functions in every branch its closed forms cover": "proved [ideal, any length]; binary64: searched (all permutations of sets of <= 5 points, 3 random ones of larger sets, relative 1e-6)",
     "general_fitting(f0, f1) with the default null third function": "modelled by hand: the translator cannot render the lambda default, cases pass bf_zero explicitly; the search checks general_fitting(bf_x, bf_one) == general_fitting(bf_x, bf_one, bf_zero) on the implementation",
 }
 
 
 def proof_files(tier):
-    return ["C17_whnf.v", "C17_tac.v", "C17_sums.v", "C17_fits.v", "C17_general.v", "C17_corr.v", "C17_ctor.v", "C17_main.v", "C17.v"]
+    return ["C17_whnf.v", "C17_tac.v", "C17_sums.v", "C17_fits.v", "C17_general.v", "C17_corr.v", "C17_ctor.v", "C17_main.v", "C17_more.v", "C17.v"]
 
 
 # ------------------------------------------------------------------ data generators
